@@ -83,6 +83,9 @@ fn dump(tcx: TyCtxt<'_>) {
         o.set("body_lo", J::n(blo as i64));
         o.set("body_hi", J::n(bhi as i64));
         o.set("macros", J::arr(macro_names(sp).iter().map(|s| J::s(s)).collect()));
+        if matches!(kind, DefKind::Const { .. } | DefKind::Static { .. }) {
+            o.set("ty", J::s(&tcx.type_of(did).instantiate_identity().skip_norm_wip().to_string()));
+        }
         let root = tcx.typeck_root_def_id(did);
         if root != did {
             o.set("root", J::s(&tcx.def_path_str(root)));
